@@ -1,6 +1,6 @@
 (* Extraction of the syntax-layer model (lexer, escape, quoting, ...) -- ExtrOcamlBasic only. *)
 From OV Require Import Base.Strs Syn.Escape Syn.Quote Syn.Ast Syn.Emitter Lex.Lexer Syn.Parser Syn.Wf Syn.StrictProfile Rt.TokRound Rt.TokRoundEx Rt.LexLink Rt.StrictEmit Rt.TokRound2 Rt.TokRound2Ex Rt.LexLink2Text.
-From OV Require Rt.BareWordParse Rt.BareWord Rt.TokRound4 Rt.TokRound4Ex Rt.LexLink4 Rt.TokRoundZ Rt.TokRoundZEx.
+From OV Require Rt.BareWordParse Rt.BareWord Rt.TokRound4 Rt.TokRound4Ex Rt.LexLink4 Rt.TokRoundZ Rt.TokRoundZEx Rt.LexLinkZText.
 Require Import ExtrOcamlBasic.
 
 Definition cls_of (tbl : list (N * N)) (c : N) : N :=
@@ -49,7 +49,9 @@ Definition in_core4_domain (d : doc) : bool := TokRound4.core4_doc d && LexLink4
 Definition corez_shape_tbl (tbl : list (N * N)) (d : doc) (lines : list (str * str)) : N :=
   TokRoundZEx.corez_shape_check (cls_of tbl) d lines.
 Definition is_corez (d : doc) : bool := TokRoundZ.corez_doc d.
+(* domain of C05_text_roundtrip_corez / C05_shape_check_corez_complete *)
+Definition in_corez_domain (tbl : list (N * N)) (d : doc) : bool := TokRoundZ.corez_doc d && LexLinkZText.lex_safez_doc (cls_of tbl) d.
 
 Extraction "../ocaml/gen/syn.ml" extract_anchor tokenize_tbl tkind_code escape unescape escape_opt unescape_opt escape_safe
   needs_quotes emit_str always_quote_key match_identifier match_annotation match_expression match_variable reserved_prefix scalar_class
-  emit emit_value parse_tbl doc_clauses strict_profile core_shape_tbl theorem_domains core2_shape_tbl core3_shape_tbl core4_shape_tbl is_core4 in_core4_domain corez_shape_tbl is_corez.
+  emit emit_value parse_tbl doc_clauses strict_profile core_shape_tbl theorem_domains core2_shape_tbl core3_shape_tbl core4_shape_tbl is_core4 in_core4_domain corez_shape_tbl is_corez in_corez_domain.
